@@ -103,11 +103,13 @@ def run(pid, tier, seed):
     rng = random.Random((seed or 0) * 1000003 + 17)
     for name, fn, not_under_contract, bound in SUITES.get(pid, []):
         t0 = time.time()
+        from . import replayrun
+        n0 = replayrun.RUNS[0]
         try:
             w = fn(time.time() + BUDGET.get(tier, 8), rng, tier)
             err = None
         except Exception as e:
             w, err = None, str(e)[:300]
         out.append({'suite': name, 'obligation': '%s.bounded.%s' % (pid, name), 'level': 'bounded', 'stands_in_for': not_under_contract, 'bound': bound,
-                    'budget_s': BUDGET.get(tier, 8), 'seconds': round(time.time() - t0, 1), 'failing_input': w, 'error': err})
+                    'budget_s': BUDGET.get(tier, 8), 'seconds': round(time.time() - t0, 1), 'executions_of_real_code': replayrun.RUNS[0] - n0, 'failing_input': w, 'error': err})
     return out
